@@ -570,7 +570,7 @@ func edgeKey(dot string) (string, error) {
 
 func graphCase(c *run.Ctx, o *run.Outcome) {
 	r := c.Rng
-	mA := modelgen.Generate(r.Fork(), modelgen.Opts{MaxClasses: 5, MaxMethods: 14, MaxOut: 4, Inheritance: true, Kinds: true, DefaultPkg: true})
+	mA := modelgen.Generate(r.Fork(), modelgen.Opts{MaxClasses: 5, MaxMethods: 14, MaxOut: 4, Inheritance: true, Kinds: true, DefaultPkg: true, CallerPkgReceivers: true})
 	mB := modelgen.Generate(r.Fork(), modelgen.Opts{MaxClasses: 5, MaxMethods: 25, MaxOut: 5, Inheritance: true, Kinds: true})
 	rootA := modelgen.PickRoot(r, mA)
 	rootB := modelgen.PickRoot(r, mB)
